@@ -164,4 +164,19 @@ def converse(x, y):
         if lab in ('bx', 'gbx') and bare_n(b1):
             continue
         out.append((lab, sym, other if modifier else build(parts)))
+    # conjunction, punctuation absorption and the listed type-changing pairs have no matched parts: their premises alone decide
+    if x in (A_(','), A_(';'), A_('conj')) and not is_punct(y) and not is_type_raised(y):
+        out.append(('conj', '<Φ>', F_(y, '\\', y)))
+    if x == A_('conj') and y == F_(A_('NP'), '\\', A_('NP')):
+        out.append(('conj', '<Φ>', y))
+    if is_punct(x):
+        out.append(('lp', '<lp>', y))
+    if x in (A_('LQU'), A_('LRB')):
+        out.append(('lp', '<lp>', F_(y, '\\', y)))
+    if is_punct(y):
+        out.append(('rp', '<rp>', x))
+    if (x, y) in LISTED_TC:
+        out.append(('lp', '<*>', LISTED_TC[(x, y)]))
+    if (x, y) == LISTED_BA:
+        out.append(('ba', '<', x))
     return out
